@@ -125,8 +125,10 @@ def parse_contracts(path):
                 section = "loop"
                 arg = rest
             elif tag == "proof":
+                if rest.strip() == "end":
+                    rest = "end <end-of-body>"
                 where, anchor = rest.split(None, 1)
-                assert where in ("before", "after"), where
+                assert where in ("before", "after", "end"), where
                 section = "proof"
                 arg = (where, anchor.strip())
             elif tag == "sig":
@@ -349,6 +351,8 @@ class Gen:
         exact_norm = set()
         spans = {}
         for where, anchor, text in ctr.proofs:
+            if where == "end":
+                continue
             sp = _find_anchor(body, anchor)
             spans[anchor] = sp
             if sp:
@@ -358,6 +362,13 @@ class Gen:
         ins = []
         newlock = {}
         for where, anchor, text in ctr.proofs:
+            if where == "end":
+                # before the last non-empty line of the body (the tail expression)
+                close = body.rstrip().rfind("}")
+                lines = _line_spans(body[:close])
+                last = [x for x in lines if x[2].strip()][-1]
+                ins.append((last[0], text))
+                continue
             sp = spans[anchor]
             how = "exact"
             if sp is None:
